@@ -48,6 +48,10 @@ type constructorNode struct {
 	// Whether the constructor owned by this node was already called.
 	called bool
 
+	// Whether the constructor is currently being built, i.e. its arguments
+	// are being resolved or it is running.
+	onStack bool
+
 	// Type information about constructor parameters.
 	paramList paramList
 
@@ -144,6 +148,22 @@ func (n *constructorNode) Call(c containerStore) (err error) {
 	if n.called {
 		return nil
 	}
+
+	// Resolution came back to a constructor that is still being built: a
+	// dependency cycle that the per-scope graphs could not see (for example
+	// through exported constructors of sibling scopes). Report it instead of
+	// recursing without bound.
+	if n.onStack {
+		return errCycleDetected{
+			Path: []cycleErrPathEntry{
+				{Key: key{t: n.CType()}, Func: n.Location()},
+				{Key: key{t: n.CType()}, Func: n.Location()},
+			},
+			scope: n.s,
+		}
+	}
+	n.onStack = true
+	defer func() { n.onStack = false }()
 
 	if err := shallowCheckDependencies(c, n.paramList); err != nil {
 		return errMissingDependencies{
